@@ -30,8 +30,9 @@ def r181(ctx, fx):
             if of == TR and n == "test_elements":
                 writers.setdefault(f.path, []).append((kind, line))
     ctx.inst(rid, "%s.test_elements|writers" % TR, sample={"writers": sorted(writers)})
-    if not writers:
-        ctx.fail_closed(rid, "no writer of TestRunner.test_elements found (field renamed?)")
+    fields = [f_["name"] for f_ in adt["variants"][0]["fields"]]
+    if "test_elements" not in fields:
+        ctx.fail_closed(rid, "TestRunner has no field test_elements any more (fields: %s)" % fields)
     for w, sites in sorted(writers.items()):
         k = "%s.test_elements|%s" % (TR, w)
         ctx.inst(rid, k)
@@ -252,8 +253,26 @@ def r185(ctx, fx):
                         loops.append((n, c[1][1]))
                     break
     if not loops:
-        ctx.inst(rid, key, nontrivial=False)
-        ctx.not_decided("execute_instruction no longer scans test_elements with an index loop: which elements are compared with the pc is not decided")
+        # the other shape: `for element in &self.test_elements { match element { … if <pc test> => … } }`
+        fors = [n for n in lib.hwalk(ex.hir["body"]) if n.get("k") == "match" and n.get("src") == "ForLoopDesugar" and lib.strip(n["scrut"]).get("k") == "call" and
+                str(lib.hcallee(lib.strip(n["scrut"]))).endswith("into_iter") and "test_elements" in repr(lib.hdesc(lib.strip(n["scrut"])["args"][0]))]
+        if not fors:
+            ctx.inst(rid, key, nontrivial=False)
+            ctx.not_decided("execute_instruction scans test_elements neither with an index loop nor with a for loop: which elements are compared with the pc is not decided")
+            return
+        it = repr(lib.hdesc(lib.strip(fors[0]["scrut"])["args"][0]))
+        ctx.inst(rid, key, sample={"form": "for element in test_elements", "iterated": it[:80]})
+        if any(w in it for w in ("::skip", "::take", "::filter", "::step_by", "::rev", "Index::index", "::get", "::split")):
+            ctx.finding(rid, key, "the scan for due assertions covers only part of the pending elements (%s): a false assertion outside that part passes silently" % it[:80],
+                        ex.where)
+        # the loop itself must not sit under a condition (a pre-filter on the pc)
+        guarded = [i for i in lib.hwalk(ex.hir["body"]) if i.get("k") == "if" and any(x is fors[0] for x in lib.hwalk(i.get("then", {})))]
+        if guarded:
+            ctx.finding(rid, key + "|pre-filter", "the scan for due assertions runs only when `%s` holds: assertions at other addresses are never compared with the "
+                        "program counter" % repr(lib.hdesc(guarded[0]["cond"]))[:80], "%s:%s" % (ex.file, guarded[0].get("ln")))
+        conds = [lib.hdesc(x) for x in lib.hwalk(fors[0]) if x.get("k") == "binary" and x.get("op") == "Eq"]
+        if not any("get_program_counter" in repr(c) or "'pc'" in repr(c) for c in conds):
+            ctx.finding(rid, key + "|test", "an element no longer fires on equality of its pc with the cpu's program counter", ex.where)
         return
     loop, idx = loops[0]
     init = None
